@@ -103,7 +103,7 @@ def long_listing_probe(run):
     n = 3 * 8192 + 50
     rule = {"pattern": ["push", "call"]}
     regex_text = jasmapi.compile_rule(rule)
-    for planted in ([8191, 9000, 16383, 20000], [4095, 4097, 8190, 8193, 16384], [0, 1023, 2047, 24620]):
+    for planted in ([8191, 9000, 16383, 20000], [4095, 4097, 8190, 8193, 16384], [0, 1023, 2047, 24620], [255, 511, 767, 1279, 65 * 256 - 1], [127, 383, 99 * 128 - 1]):
         L = [(format(0x400000 + i, "x"), "mov", ["%rax", "%rbx"]) for i in range(n)]
         for p in planted:
             L[p] = (L[p][0], "push", ["%rbp"])
